@@ -565,7 +565,9 @@ def close(a, b, rtol=1e-9, atol=0.0):
             return False
     with np.errstate(all='ignore'):
         same_inf = (a == b)
-        ok = np.abs(a - b) <= atol + rtol * np.maximum(np.abs(a), np.abs(b))
+        # an infinite value is close only to the same infinity (rtol * inf would otherwise swallow any difference)
+        fin = np.isfinite(a) & np.isfinite(b)
+        ok = fin & (np.abs(a - b) <= atol + rtol * np.maximum(np.abs(a), np.abs(b)))
     return bool(np.all(ok | same_inf))
 
 
